@@ -333,6 +333,9 @@ class IsolationOracle(Oracle):
             root_new = f"Groups/{model.root}" not in self.pre[h]
             # a copy discarded by copy_from_extent (nothing selected) may leave the shared type it introduced
             type_intro = op["k"] == "copy_extent" and key.split("/")[-1] in {r["type_uid"] for hh in world.h.values() for r in hh.model.recs.values()}
+            # (a GeoImage is cropped through a temporary Grid2D, removed again; the grid's type stays behind, unused)
+            type_intro = type_intro or (op["k"] == "copy_extent" and key == "T/Object types/{48f5054a-1c5c-4ca4-9048-80f36dc60a06}"
+                                        and any(r["cls"] == "GeoImage" for hh in world.h.values() for r in hh.model.recs.values()))
             type_edit = getattr(world, "last_type", None)
             if type_edit and type_edit[0] == h and key == type_edit[1] and ok_op:
                 continue
